@@ -34,15 +34,19 @@ JudgeCopy(e) ==
              sh == SharingExactClause(e.g, dd, e.src, e.cpy)
              bd == BoundClause(dd, e.vs, e.vc)
              hid == dd \in {"TNS", "NewNS"} /\ ~ForeignTarget(e.vs) /\ ForeignTarget(e.vc)
+             \* input shape: the source of this copy already carries such a foreign annotation target
+             srcbad == ForeignTarget(e.vs)
+             inherited == "copy-of-object-with-foreign-annotation-target/"
          IN If(eq # "ok", V("C12.EqualAfterCopy", IF hid /\ eq = "full:size" /\ Len(e.vc.full.c) = Len(e.vs.full.c) + 1
-                                                   THEN "copy-constructor/hidden-twin-object-in-copy" ELSE rc \o "/" \o eq))
+                                                   THEN "copy-constructor/hidden-twin-object-in-copy"
+                                                   ELSE IF srcbad THEN inherited \o eq ELSE rc \o "/" \o eq))
             \o If(OwnPart(prev) # OwnPart(e.vs) \/ SharedPart(prev) # SharedPart(e.vs), V("C12.EqualAfterCopy", rc \o "/source-changed-by-copying"))
             \* what the documentation of the shallow copies leaves open is counted as drift, never failed
             \o If(dd = "Shallow" /\ e.vs.ann[1].c # e.vc.ann[1].c, V("DRIFT.shallow-copy-without-comments", e.cls))
             \o If(dd = "Shallow" /\ e.vs.enc # e.vc.enc, V("DRIFT.shallow-copy-without-auxiliary-structures", e.cls))
             \o If(sh # "ok", V("C12.SharingExactlyAsDocumented", rc \o "/" \o sh))
             \o If(bd # "ok", V("C12.BoundAnnotationsFollowCopy", IF hid /\ bd = "binding" THEN "copy-constructor/annotation-target-is-not-the-copy"
-                                                                    ELSE rc \o "/" \o bd))
+                                                                    ELSE IF srcbad THEN inherited \o bd ELSE rc \o "/" \o bd))
 
 JudgeMutate(e) ==
     IF ~st.ok THEN None
